@@ -122,6 +122,9 @@ type Layout struct {
 	Pre, Post string // the template body around the tokens
 	Toks      []string
 	Top       bool // Pre/Post are a whole top-level declaration, not a body line of T
+	// Parts: the tokens are the parts of a templ construct rather than of one Go expression; a line
+	// break between them can make another, equally valid program ("@c()" followed by "{ x }").
+	Parts bool
 }
 
 var Layouts = []Layout{
@@ -155,6 +158,29 @@ var Layouts = []Layout{
 	{Name: "attrs", Pre: "\t<div", Post: ">x</div>", Toks: []string{`id="i"`, `title={ s }`, `hidden`}},
 	{Name: "attrs-void", Pre: "\t<input", Post: "/>", Toks: []string{`type="text"`, `value={ s }`}},
 	{Name: "attrs-cond", Pre: "\t<div", Post: ">x</div>", Toks: []string{`id="i"`, `if b { class="a" }`, `{ attrs... }`}},
+	// the parts of one construct: blanks and line breaks between a name and its "=", inside tags,
+	// around "else", "case", "@" ...
+	{Parts: true, Name: "attr-parts", Pre: "\t<div ", Post: ">x</div>", Toks: []string{`title`, `=`, `{`, `s`, `}`}},
+	{Parts: true, Name: "attr-parts-const", Pre: "\t<a ", Post: ">x</a>", Toks: []string{`href`, `=`, `"/"`, `class`, `=`, `"c"`}},
+	{Parts: true, Name: "attr-parts-bool", Pre: "\t<input ", Post: "/>", Toks: []string{`disabled`, `?=`, `{`, `b`, `}`}},
+	{Parts: true, Name: "attr-parts-cond", Pre: "\t<div ", Post: ">x</div>", Toks: []string{`if`, `b`, `{`, `class`, `=`, `"a"`, `}`}},
+	{Parts: true, Name: "tag-parts", Pre: "\t", Post: "x</div>", Toks: []string{`<`, `div`, `id="i"`, `>`}},
+	{Parts: true, Name: "void-tag-parts", Pre: "\t", Post: "", Toks: []string{`<`, `br`, `/`, `>`}},
+	{Parts: true, Name: "end-tag-parts", Pre: "\t<div>x", Post: "", Toks: []string{`<`, `/`, `div`, `>`}},
+	{Parts: true, Name: "call-parts", Pre: "\t", Post: "", Toks: []string{`@`, `c2(s, b)`, `{`, `inner`, `}`}},
+	{Parts: true, Name: "children-parts", Pre: "\t<div>", Post: "</div>", Toks: []string{`{`, `children`, `...`, `}`}},
+	{Parts: true, Name: "spread-parts", Pre: "\t<div ", Post: ">x</div>", Toks: []string{`{`, `attrs`, `...`, `}`}},
+	{Parts: true, Name: "else-parts", Pre: "\tif b {\n\t\tyes\n\t", Post: "\n\t\tno\n\t}", Toks: []string{`}`, `else`, `{`}},
+	{Parts: true, Name: "else-if-parts", Pre: "\tif b {\n\t\tyes\n\t", Post: "\n\t\tno\n\t}", Toks: []string{`}`, `else`, `if`, `!b`, `{`}},
+	{Parts: true, Name: "case-parts", Pre: "\tswitch s {\n\t\t", Post: "\n\t\t\tone\n\t}", Toks: []string{`case`, `"a"`, `:`}},
+	{Parts: true, Name: "default-parts", Pre: "\tswitch s {\n\t\t", Post: "\n\t\t\tone\n\t}", Toks: []string{`default`, `:`}},
+	{Parts: true, Name: "comment-parts", Pre: "\t<div>", Post: "</div>", Toks: []string{`<!--`, `c`, `-->`}},
+	{Parts: true, Name: "legacy-call-parts", Pre: "\t", Post: "", Toks: []string{`{`, `!`, `c()`, `}`}},
+	{Parts: true, Name: "raw-go-parts", Pre: "\t", Post: "\n\t{ v }", Toks: []string{`{`, `{`, `v := s`, `}`, `}`}},
+	{Parts: true, Name: "templ-parts", Top: true, Pre: "", Post: "\n\t<i></i>\n}\n", Toks: []string{`templ`, `L`, `(`, `)`, `{`}},
+	{Parts: true, Name: "css-parts", Top: true, Pre: "", Post: "\n\tcolor: red;\n}\n", Toks: []string{`css`, `k`, `(`, `)`, `{`}},
+	{Parts: true, Name: "css-prop-parts", Top: true, Pre: "css k() {\n\t", Post: "\n}\n", Toks: []string{`color`, `:`, `red`, `;`}},
+	{Parts: true, Name: "script-parts", Top: true, Pre: "", Post: "\n\tconsole.log(a);\n}\n", Toks: []string{`script`, `j`, `(`, `a string`, `)`, `{`}},
 	{Name: "params", Top: true, Pre: "templ L(", Post: ") {\n\t<i></i>\n}\n", Toks: []string{`s`, `string`, `,`, `b`, `bool`}},
 	{Name: "params-comma", Top: true, Pre: "templ L(", Post: ") {\n\t<i></i>\n}\n", Toks: []string{`s, t string`, `,`, `b bool`, `,`}},
 	{Name: "css-prop", Top: true, Pre: "css k(w string) {\n\tcolor: red;\n\twidth: {", Post: "};\n}\n", Toks: []string{`up(`, `w`, `)`}},
